@@ -209,22 +209,45 @@ def r4(ctx):
     if calls_to(pe, "Parser::parse_cond"):
         ctx.violation("layering/parse_expr-skips-and", ctx.where(PARSE_EXPR), "parse_expr takes an operand from parse_cond directly")
     # brackets
+    # parse_paren evaluated (finite interpreter; parse_expr and parse_func_scalar are stand-ins that take one word): an opening
+    # bracket of either style holds one full expression and is closed by the bracket of its own style; anything else is a leaf
+    import interp
     pp = ctx.anchor_hir(PARSE_PAREN)
-    pairs = {}
-    for m in find_matches(pp):
-        for a in match_arms(m):
-            for k in a["keys"]:
-                kn = key_name(k).split("::")[-1]
-                if kn in ("Open", "CurlyOpen"):
-                    inner = calls_to(a["body"], "Parser::parse_expr")
-                    closes = _lexem_pats(a["body"])
-                    pairs[kn] = (len(inner), sorted(closes))
-    ok = pairs.get("Open") == (1, ["Close"]) and pairs.get("CurlyOpen") == (1, ["CurlyClose"])
-    ctx.obligation(ok)
-    ctx.covered("bracket arms of parse_paren", 2, distinct_keys=["Open", "CurlyOpen"], sample={"brackets": pairs})
-    if not ok:
+    pps = ctx.prog.fns[PARSE_PAREN]["params"]
+    V = interp.V
+    W = lambda t: V("Lexem::RawString", [t])
+    O, C, CO, CC = V("Lexem::Open"), V("Lexem::Close"), V("Lexem::CurlyOpen"), V("Lexem::CurlyClose")
+    shapes = [("( a )", [O, W("a"), C], ("expr", "a"), 3), ("{ a }", [CO, W("a"), CC], ("expr", "a"), 3), ("( a }", [O, W("a"), CC], "err", None),
+              ("{ a )", [CO, W("a"), C], "err", None), ("( a", [O, W("a")], "err", None), ("{ a", [CO, W("a")], "err", None),
+              ("a", [W("a")], ("leaf", "a"), 1), ("a )", [W("a"), C], ("leaf", "a"), 1), ("( a ) b", [O, W("a"), C, W("b")], ("expr", "a"), 3)]
+    badp = []
+    for label, lex, want, want_index in shapes:
+        selfv = interp.LazySelf({"lexems": list(lex), "index": 0, "roots_parsed": True, "where_parsed": True})
+
+        def call(node, recv, args, it, env, selfv=selfv):
+            m_ = node.get("m") or ""
+            callee = str(node.get("callee", ""))
+            for nm_, tag_ in (("parse_expr", "expr"), ("parse_func_scalar", "leaf")):
+                if m_ == nm_ or callee.endswith("Parser::" + nm_):
+                    i = selfv["index"]
+                    if i < len(selfv["lexems"]) and selfv["lexems"][i].name == "Lexem::RawString":
+                        selfv["index"] = i + 1
+                        return (V("Result::Ok", [interp.some((tag_, selfv["lexems"][i].args[0]))]),)
+                    return (V("Result::Err", ["Error parsing expression"]),)
+            return None
+        try:
+            got = interp.Interp(call=call, prog=ctx.prog, max_steps=20000).run(pp, {pps[0]["id"]: selfv})
+        except interp.Undecided as e:
+            badp.append("cannot evaluate parse_paren on `%s`: %s" % (label, e))
+            break
+        g = "err" if isinstance(got, V) and got.name == "Result::Err" else (got.args[0].args[0] if isinstance(got, V) and got.name == "Result::Ok" and isinstance(got.args[0], V) and got.args[0].args else repr(got))
+        if g != want or (want_index is not None and selfv["index"] != want_index):
+            badp.append("`%s` gives %s (cursor %s), expected %s%s" % (label, g, selfv["index"], want, "" if want_index is None else " (cursor %d)" % want_index))
+    ctx.obligation(not badp)
+    ctx.covered("parse_paren evaluated on 9 bracket shapes (both styles, mismatched, unclosed, no bracket)", len(shapes), distinct_keys=[s_[0] for s_ in shapes], exhaustive=True)
+    if badp:
         ctx.violation("layering/brackets", ctx.where(PARSE_PAREN),
-                      "each opening bracket must parse one full expression and expect its own closing kind; found %s" % pairs)
+                      "each opening bracket must parse one full expression and expect its own closing kind: %s" % "; ".join(badp[:3]))
 
 
 class _Interp:
@@ -492,20 +515,16 @@ NOT_DECIDED = [
 ]
 
 
-def r9(ctx):
-    """prefix and infix NOT compose by parity: parse_cond evaluated (finite interpreter; the parser's cursor is its lexem list and
-    index, the operand level parse_add_sub is a stand-in that takes one word; Expr::op / logical_op, Op::from_with_not, Op::negate
-    and negate_expr_op are read from the source) on 0..3 prefix NOTs x an infix NOT or none x the operators like, =, gt,
-    BETWEEN: the condition built is the plain one for an even number of NOTs and its complement for an odd number"""
+def eval_parse_cond(ctx, lex, where_phase=True):
+    """parse_cond evaluated (finite interpreter) on a lexem list: the operand level parse_add_sub is a stand-in that takes one
+    word; Expr::op / logical_op, Op::from_with_not, Op::negate and negate_expr_op are read from the source.
+    -> (shape of the condition built | "err", cursor).  Raises interp.Undecided."""
     import interp
     from extra import _expr_dict
     V = interp.V
     fn = "parser::Parser::parse_cond"
     hir = ctx.anchor_hir(fn)
     ps = ctx.prog.fns[fn]["params"]
-    W, OP, NOT, AND = (lambda t: V("Lexem::RawString", [t])), (lambda t: V("Lexem::Operator", [t])), V("Lexem::Not"), V("Lexem::And")
-    NEG = {"Like": "NotLike", "Eq": "Ne", "Gt": "Lte"}
-    BASE = {"like": "Like", "=": "Eq", "gt": "Gt"}
 
     def unsome(x):
         return x.args[0] if isinstance(x, V) and x.name == "Option::Some" else (None if x == interp.NONE else x)
@@ -520,29 +539,44 @@ def r9(ctx):
         if op is not None:
             return (op.name.split("::")[-1], shape(e.get("left")), shape(e.get("right")))
         return unsome(e.get("val"))
+    selfv = interp.LazySelf({"lexems": list(lex), "index": 0, "roots_parsed": True, "where_parsed": not where_phase})
+
+    def call(node, recv, args, it, env):
+        m_ = node.get("m")
+        callee = str(node.get("callee", ""))
+        if m_ == "parse_add_sub" or callee.endswith("Parser::parse_add_sub"):
+            i = selfv["index"]
+            if i < len(selfv["lexems"]) and selfv["lexems"][i].name in ("Lexem::RawString", "Lexem::String"):
+                selfv["index"] = i + 1
+                return (V("Result::Ok", [interp.some(_expr_dict(interp, val=interp.some(selfv["lexems"][i].args[0])))]),)
+            return (V("Result::Err", ["Error parsing expression"]),)
+        if m_ in ("clone", "to_owned") and isinstance(recv, (dict, V)):
+            import copy
+            return (copy.deepcopy(recv),)
+        return None
+    got = interp.Interp(call=call, prog=ctx.prog, max_steps=60000).run(hir, {ps[0]["id"]: selfv})
+    g = shape(got.args[0]) if isinstance(got, V) and got.name == "Result::Ok" else ("err" if isinstance(got, V) and got.name == "Result::Err" else repr(got))
+    return g, selfv["index"]
+
+
+def r9(ctx):
+    """prefix and infix NOT compose by parity: parse_cond evaluated (eval_parse_cond) on 0..3 prefix NOTs x an infix NOT or
+    none x the operators like, =, gt, BETWEEN: the condition built is the plain one for an even number of NOTs and its
+    complement for an odd number"""
+    import interp
+    V = interp.V
+    fn = "parser::Parser::parse_cond"
+    W, OP, NOT, AND = (lambda t: V("Lexem::RawString", [t])), (lambda t: V("Lexem::Operator", [t])), V("Lexem::Not"), V("Lexem::And")
+    NEG = {"Like": "NotLike", "Eq": "Ne", "Gt": "Lte"}
+    BASE = {"like": "Like", "=": "Eq", "gt": "Gt"}
     n = 0
     for k in range(4):
         for infix in (False, True):
             for word in ("like", "=", "gt", "between"):
                 lex = [NOT] * k + [W("x")] + ([NOT] if infix else []) + [OP(word), W("a")] + ([AND, W("b")] if word == "between" else [])
-                selfv = interp.LazySelf({"lexems": list(lex), "index": 0, "roots_parsed": True, "where_parsed": False})
-
-                def call(node, recv, args, it, env, selfv=selfv):
-                    m_ = node.get("m")
-                    callee = str(node.get("callee", ""))
-                    if m_ == "parse_add_sub" or callee.endswith("Parser::parse_add_sub"):
-                        i = selfv["index"]
-                        if i < len(selfv["lexems"]) and selfv["lexems"][i].name == "Lexem::RawString":
-                            selfv["index"] = i + 1
-                            return (V("Result::Ok", [interp.some(_expr_dict(interp, val=interp.some(selfv["lexems"][i].args[0])))]),)
-                        return (V("Result::Err", ["Error parsing expression"]),)
-                    if m_ in ("clone", "to_owned") and isinstance(recv, (dict, V)):
-                        import copy
-                        return (copy.deepcopy(recv),)
-                    return None
                 spelled = " ".join(["not"] * k + ["x"] + (["not"] if infix else []) + [word, "a"] + (["and", "b"] if word == "between" else []))
                 try:
-                    got = interp.Interp(call=call, prog=ctx.prog, max_steps=60000).run(hir, {ps[0]["id"]: selfv})
+                    g, idx = eval_parse_cond(ctx, lex)
                 except interp.Undecided as e:
                     ctx.obligation(False)
                     ctx.violation("not-composition/unreadable", ctx.where(fn), "cannot evaluate parse_cond on `%s`: %s" % (spelled, e))
@@ -553,8 +587,7 @@ def r9(ctx):
                     want = ("Or", ("Lt", "x", "a"), ("Gt", "x", "b")) if odd else ("And", ("Gte", "x", "a"), ("Lte", "x", "b"))
                 else:
                     want = (NEG[BASE[word]] if odd else BASE[word], "x", "a")
-                g = shape(got.args[0]) if isinstance(got, V) and got.name == "Result::Ok" else repr(got)
-                ok = g == want and selfv["index"] == len(lex)
+                ok = g == want and idx == len(lex)
                 ctx.obligation(ok)
                 if not ok:
                     ctx.violation("not-composition/%s" % ("between" if word == "between" else "comparison"), ctx.where(fn),
